@@ -64,16 +64,31 @@ def coq_files():
 def gen_translated():
     """Regenerate the translated Coq files from /repo's current source."""
     import translators
-    translators.run_all(REPO, COQ)
+    return translators.run_all(REPO, COQ)
+
+
+def coq_deps(vfile, seen=None):
+    """transitive `From RV Require ...` dependencies of a .v file, as paths relative to coq/"""
+    seen = set() if seen is None else seen
+    txt = strip_coq_comments(open(vfile, encoding="utf-8").read())
+    for m in re.finditer(r"From\s+RV\s+Require\s+(?:Import\s+|Export\s+)?(.*?)\.(?=\s|$)", txt, re.S):
+        for mod in m.group(1).split():
+            rel = mod.replace(".", "/") + ".v"
+            if rel not in seen and os.path.exists(os.path.join(COQ, rel)):
+                seen.add(rel)
+                coq_deps(os.path.join(COQ, rel), seen)
+    return seen
 
 
 def coq_prepare():
+    """-> {generated file: message} for translators that failed on the current source"""
     with Lock("coq"):
-        gen_translated()
+        failed = gen_translated()
         mk = os.path.join(COQ, "Makefile")
         cp = os.path.join(COQ, "_CoqProject")
         if not os.path.exists(mk) or os.path.getmtime(mk) < os.path.getmtime(cp):
             sh(["coq_makefile", "-f", "_CoqProject", "-o", "Makefile"], cwd=COQ)
+        return failed
 
 
 def coq_make(targets, timeout=1500):
